@@ -490,6 +490,7 @@ func (p *Parser) node() (Node, error) {
 	}
 	if node, ok := node.(Binding); ok {
 		node.idx = p.bindingIndex(node.Name)
+		return node, nil
 	}
 	return node, nil
 }
